@@ -50,6 +50,16 @@ def run(pid, tier, seed):
     states = trans = events = 0
     samples = []
     acc = rej = 0
+    # the field grammar of the Parse specification against its declarative statement, all short inputs
+    mcfg = V.write_cfg(os.path.join(work, "MCParse.cfg"), "SPECIFICATION Spec\nCONSTANT MaxLen = %d\nINVARIANTS MonthLaw HourLaw SecLaw E4YLaw YearLaw OffLaw\nCHECK_DEADLOCK FALSE\n"
+                       % (6 if tier == "thorough" else 4))
+    r = V.tlc("MCParse", mcfg, workers=8, timeout=3000, heap="8g")
+    states += r.distinct
+    trans += r.generated
+    if r.verdict_violation:
+        verdict.violation("spec:MCParse", "the Parse specification violates its own field-grammar laws:\n" + r.tail(25))
+    elif not r.ok:
+        verdict.infra_failure("MCParse: " + r.tail(5))
     try:
         exe = V.build_driver("drv_parse", "asan")
     except V.BuildError as e:
